@@ -50,6 +50,19 @@ CHECKS.update({
     ),
 })
 
+CHECKS.update({
+    "C16": dict(
+        level="exploration", engine="bex",
+        text="Differential twin: every program of the typed grammar with <= 6 (thorough: 7) nodes and every binder skeleton of depth <= 3 (thorough: 4) "
+             "whose free identifiers are attributes of the argument map (locals and constants shadow them; uses at every closure nesting level) is "
+             "generated with GenerateWithMap(exp) and, after the checks' own free-variable substitution x -> this.x on the AST, with Generate(exp'); both "
+             "are evaluated on the same map in five storage representations, optimizer on and off; Generate-time success and outcomes must agree.",
+        note="Trusted: the free-variable substitution of internal/vlang. The explicit form's own correctness is C01's claim.",
+        technique="bounded-exhaustive differential enumeration (implicit vs explicit attribute access)",
+        design_ref="DESIGN.md §5 C16",
+    ),
+})
+
 NOT_YET = "check not built yet in this session (planned, see DESIGN.md §9); not claimed until its machinery exists"
 
 def main():
